@@ -146,4 +146,48 @@ def configLocations (pathsep : Char) (sepOpt : Option String) (s : Option Name) 
     | none => none
     | some sep => some (versionLocations sep (some s))
 
+/-! ## `prepend_sys_path` splitting and `load_python_file` -/
+
+/-- `_split_on_space_comma_colon.split(s)`, i.e. `re.split(r", *|(?: +)|\:", s)`: as
+    `legacySplitAux`, plus a colon as a separator of its own (it does not swallow spaces). -/
+def prependSplitAux : Bool → Name → Name → List Name
+  | _, cur, [] => [cur.reverse]
+  | skipping, cur, c :: r =>
+    if c == ' ' then
+      if skipping then prependSplitAux true cur r
+      else cur.reverse :: prependSplitAux true [] r
+    else if c == ',' then cur.reverse :: prependSplitAux true [] r
+    else if c == ':' then cur.reverse :: prependSplitAux false [] r
+    else prependSplitAux false (c :: cur) r
+
+/-- the entries `from_config` puts in front of `sys.path` for a non-empty `prepend_sys_path` -/
+def prependSplit (s : Name) : List Name := prependSplitAux false [] s
+
+/-- which file `alembic.util.pyfiles.load_python_file(dir, filename)` hands to the import machinery -/
+inductive LoadFrom where
+  | self          -- the named file itself
+  | cache         -- `importlib.util.cache_from_source(path)`, i.e. `__pycache__/x.<tag>.pyc`
+  | legacy        -- `x` + a member of `importlib.machinery.BYTECODE_SUFFIXES` next to the missing source
+  | importError   -- "Can't find Python file"
+  | assertFalse   -- `os.path.splitext` gives an extension other than .py/.pyc/.pyo
+deriving DecidableEq, Repr
+
+/-- the extension `os.path.splitext(filename)[1]` falls in -/
+inductive Ext where
+  | py | compiled | other
+deriving DecidableEq, Repr
+
+/-- `load_python_file` + `pyc_file_from_path`: `selfExists` = the named path exists,
+    `cacheExists` = its PEP 3147 cache file exists, `legacyExists` = a legacy byte-code file
+    (same path with a `BYTECODE_SUFFIXES` extension) exists. -/
+def loadPythonFile (ext : Ext) (selfExists cacheExists legacyExists : Bool) : LoadFrom :=
+  match ext with
+  | .py =>
+    if selfExists then .self
+    else if cacheExists then .cache
+    else if legacyExists then .legacy
+    else .importError
+  | .compiled => .self
+  | .other => .assertFalse
+
 end Model.Files
